@@ -59,6 +59,15 @@ def expectedTag (enabled : Bool) (k : Nat) (noTagOnly : Bool) (ammoTag path : St
     else ammoTag ++ "|" ++ firstElements k path
   else if ammoTag = "" then emptyTag else ammoTag
 
+/-- docs/eng/http-generator.md: `uri-elements: 2 # … Default: 2`, `no-tag-only: true # … Default: true`; auto-tagging is off
+unless `enabled: true` is written -/
+def docUriElements : Nat := 2
+def docNoTagOnly : Bool := true
+
+/-- the tag a sample must carry when the `auto-tag` section is written only in part (`none`: key absent) -/
+def expectedTagWritten (enabled : Option Bool) (k : Option Nat) (noTagOnly : Option Bool) (ammoTag path : String) : String :=
+  expectedTag (enabled.getD false) (k.getD docUriElements) (noTagOnly.getD docNoTagOnly) ammoTag path
+
 /-! ### judging one request's samples -/
 
 /-- what the scripted target did with the request (ground truth of the harness) -/
